@@ -34,8 +34,15 @@ ASSUMPTIONS = [
     "protobuf SerializeToString/ParseFromString is the identity on message trees (the harness re-parses the written file)",
     "ScenarioID.from_benchmark_id(str(id)) is the identity (property C13); the benchmark id is an opaque string in the model",
     "domain as in C01: 2-D, ids in [1, 2^32), time steps < 2^31, explicit sign/light positions, non-empty light cycle, string geo "
-    "reference, state attributes that message State has a field for, signal states with at least one slot set, incoming "
-    "elements whose incoming_lanelets is a set",
+    "reference, state attributes that message State has a field for (KSTState.hitch_angle, LateralState.lateral_position, "
+    "LongitudinalState.longitudinal_position have none: C02_unwritable_classes), incoming elements whose incoming_lanelets is a set",
+    "initial states are InitialState objects (as Obstacle.initial_state asserts and PlanningProblem.initial_state is annotated, and "
+    "as the 2020a schema of C01 can express): a PlanningProblem handed an STState/CustomState with extra attributes is constructible "
+    "(the setter only checks mandatory fields) and loses those attributes on write->read in BOTH formats — outside the quantifier; "
+    "Lean witness C02_witness_initial_extra_dropped, replayed on the real code by corpus/C02/outside_pp_initial_state_is_ststate.json",
+    "a signal-state object without any slot (SignalState()) carries no information: as initial_signal_state it reads back as None, "
+    "inside a signal series as the None the reader appends (shown as the all-unset signal state)",
+    "a state's populated attributes form a map; snapshots list it in protobuf descriptor order (St.wf): the order is not content",
     "not content (no field in the format / derived): lanelet centre line, obstacle-lanelet assignments, TrafficLight.color/.shape, "
     "TrafficLightCycle.active, dynamic-obstacle meta information/history, the file's date stamp; Location None == Location() "
     "(the writer's documented substitute); an empty reference set == no reference set; state CLASS (only the populated attributes)",
@@ -47,7 +54,8 @@ REQUIRED_BUCKETS = ["sign:virtual-true", "sign:first-occurrence", "light:offset"
                     "state:region-position", "pred:set-based", "pred:trajectory", "shape:group", "lanelet:defaults",
                     "lanelet:stop-line", "goal:lanelets-partial", "init:unset-middle-attr", "location:default",
                     "location:env-time-date", "header:via-writer", "phantom", "env-obstacle", "state:no-position",
-                    "real:subnormal-or-huge", "reader-defaults", "writer-error:value", "writer-error:attr", "roundtrip-ok"]
+                    "real:subnormal-or-huge", "reader-defaults", "writer-error:value", "writer-error:attr", "roundtrip-ok",
+                    "canonical-original", "signal:empty-object", "outside:initial-extra-attribute"]
 WORKERS = {"quick": 1, "thorough": 8}
 
 logging.disable(logging.CRITICAL)
@@ -240,6 +248,8 @@ def tag_spec(ctx, sp):
         kind = "static" if o in sp["static"] else "dynamic"
         if o.get("sig0") is None and o.get("series") is None:
             t(f"{kind}:default-signals")
+        if o.get("sig0") == {} or {} in (o.get("series") or []):
+            t("signal:empty-object")
         for sg in ([o["sig0"]] if o.get("sig0") else []) + (o.get("series") or []):
             if "horn" in sg:
                 t("signal:horn")
@@ -314,6 +324,24 @@ def run_case(ctx, case, correspond=True):
     res = write_read(ctx, sc, pps, wkw)
     w = res["write"]
 
+    if kind == "outside":                      # constructible but outside the quantifier: model = implementation, no oracle
+        w2 = res["write"]
+        if w2[0] != "ok" or res["read"] is None or res["read"][0] != "ok":
+            ctx.compare({"spec": sp, "kind": kind}, {"write": w2[0], "read": (res["read"] or ["-"])[0]},
+                        {"write": "ok", "read": "ok"}, "outside-quantifier witness must be writable and readable")
+            return
+        b2 = S.snapshot(res["read"][1], res["read"][2])
+        ctx.compare({"spec": sp, "kind": kind}, b2, ctx.driver.ask("C02", "norm", {"x": a}),
+                    "witness: snapshot(read back) vs CR.PBF.normPb snapshot(original)")
+        ca = ctx.driver.ask("C02", "canon", {"x": a})
+        ctx.compare({"spec": sp, "kind": kind}, {"wf": True, "inits_ok": False}, {"wf": ca["wf"], "inits_ok": ca["inits_ok"]},
+                    "witness is admissible (wf) but has an initial state outside InitialState's attributes")
+        lost = [p for p, x, y in S.diff(S.expected(a), S.canon_order(S.strip_cls(b2)))]
+        ctx.compare({"spec": sp, "kind": kind}, bool(lost), True, "witness: the real code does drop the extra attribute")
+        ctx.tag("outside:initial-extra-attribute")
+        ctx.excluded += 1
+        return
+
     if kind == "invalid":                      # writer error branches: correspondence only, outside the property's domain
         model = ctx.driver.ask("C02", "encode", {"x": a, "T": tables_for(a)})
         impl = {"err": w[1]} if w[0] == "err" else {"ok": "written"}
@@ -351,6 +379,22 @@ def run_case(ctx, case, correspond=True):
         ctx.compare({"spec": sp}, {"ok": b}, model, "snapshot(read back) vs CR.PBF.decodePb(message tree)")
         model = ctx.driver.ask("C02", "roundtrip", {"x": a})
         ctx.compare({"spec": sp}, {"ok": b}, model, "snapshot(read back) vs CR.PBF.decodePb (encScn snapshot(original))")
+        model = ctx.driver.ask("C02", "norm", {"x": a})
+        ctx.compare({"spec": sp}, b, model, "snapshot(read back) vs CR.PBF.normPb snapshot(original)")
+        # the class each state reads back as = the class its populated attributes denote (St.specClass, snapshot side only)
+        model = ctx.driver.ask("C02", "spec_classes", {"x": a})
+        impl = {"traj": [s["cls"] for o in b["dynamic"] if o["pred"] and "traj" in o["pred"] for s in o["pred"]["traj"]["states"]],
+                "goals": [g["state"]["cls"] for p in b["pps"] for g in p["goals"]]}
+        ctx.compare({"spec": sp}, impl, model, "classes of the read-back states vs CR.PBF.St.specClass of the original states")
+        # what the real reader returns is a canonical, typed, admissible snapshot (C02_normPb_canon / _typed)
+        model = ctx.driver.ask("C02", "canon", {"x": b})
+        ctx.compare({"spec": sp}, {"wf": True, "typed": True, "canon": True, "inits_ok": True}, model,
+                    "read-back snapshot is canonical (Scn.canon/typed/wf of the model)")
+        ca = ctx.driver.ask("C02", "canon", {"x": a})
+        if ca["canon"] and ca["typed"]:
+            ctx.tag("canonical-original")
+            # C02_roundtrip_id: a canonical original comes back EXACTLY (state classes included)
+            ctx.compare({"spec": sp}, S.canon_order(a), S.canon_order(b), "canonical original vs read back: literal identity")
     # ---- oracle: the property statement on the real code
     d = S.diff(S.expected(a), S.canon_order(S.strip_cls(b)))
     if not d:
